@@ -39,8 +39,10 @@ type Case struct {
 	Trivial bool
 	// Timeout overrides the per-case deadline
 	Timeout time.Duration
+	// Spec: fields of an additional "spec" request answered by the model driver (c.spec)
+	Spec []string
 
-	impl, model string
+	impl, model, spec string
 }
 
 func (c *Case) key() string { return c.Kind + "\t" + strings.Join(c.Fields, "\t") }
@@ -450,6 +452,16 @@ func runAll(cases []*Case) {
 					c.model = "UNSUPPORTED model " + ans
 					d.kill()
 					d = nil
+					continue
+				}
+				if c.Spec != nil {
+					ans, ok = d.ask(i, "spec\t"+strings.Join(c.Spec, "\t"), 20*time.Second)
+					c.spec = ans
+					if !ok {
+						c.spec = "NOSPEC " + ans
+						d.kill()
+						d = nil
+					}
 				}
 			}
 		}(s)
